@@ -70,7 +70,8 @@ fn native(n: c_int) -> End {
     .end
 }
 
-/// ctx 0: plain call; 1: from inside the signal's own registered action; 2: with the signal blocked.
+/// ctx 0: plain call; 1: from inside the signal's own registered action; 2: with the signal blocked;
+/// 3: with another signal blocked and pending; 4: on a non-main thread of a multi-threaded process.
 fn emulated(n: c_int, ctx: u32) -> (End, String) {
     let r = fork::probe(10_000, true, move |fd| {
         no_core();
@@ -105,10 +106,36 @@ fn emulated(n: c_int, ctx: u32) -> (End, String) {
                     _ => return 21,
                 }
             }
-            _ => {
+            2 => {
                 crate::sig::block(n, libc::SIG_BLOCK);
                 if signal_hook::low_level::emulate_default_handler(n).is_err() {
                     return 10;
+                }
+            }
+            3 => {
+                // an unrelated signal is blocked and pending (default disposition: it would terminate)
+                let x = if n == libc::SIGUSR2 { libc::SIGUSR1 } else { libc::SIGUSR2 };
+                crate::sig::block(x, libc::SIG_BLOCK);
+                unsafe { libc::raise(x) };
+                if signal_hook::low_level::emulate_default_handler(n).is_err() {
+                    return 10;
+                }
+                // still here: the other signal must still be blocked and pending
+                if !crate::sig::is_pending(x) {
+                    return 22;
+                }
+            }
+            _ => {
+                // multi-threaded process, emulation on a thread that is not the main one
+                let h = std::thread::spawn(move || signal_hook::low_level::emulate_default_handler(n).is_err());
+                let t0 = crate::now_ms();
+                while !h.is_finished() && crate::now_ms() - t0 < 5000 {
+                    std::hint::spin_loop();
+                }
+                match h.join() {
+                    Ok(true) => return 10,
+                    Ok(false) => {}
+                    Err(_) => return 23,
                 }
             }
         }
@@ -160,7 +187,7 @@ pub fn main(args: &[String]) -> i32 {
         }
         let nat = if (1..=64).contains(&n) && n != 32 && n != 33 { Some(classify(&native(n))) } else { None };
         probes += nat.is_some() as u64;
-        for ctx in 0..3u32 {
+        for ctx in 0..5u32 {
             if ctx == 1 && (n == libc::SIGKILL || n == libc::SIGSTOP || !(1..=64).contains(&n) || n == 32 || n == 33) {
                 continue;
             }
@@ -171,7 +198,7 @@ pub fn main(args: &[String]) -> i32 {
                 inconclusive = Some(format!("probe for signal {} ctx {} timed out", n, ctx));
                 continue;
             }
-            let label = format!("signal {} ({}) context {}", n, name.unwrap_or("unnamed"), ["plain", "inside-own-action", "blocked"][ctx as usize]);
+            let label = format!("signal {} ({}) context {}", n, name.unwrap_or("unnamed"), ["plain", "inside-own-action", "blocked", "other-signal-blocked-and-pending", "on-a-non-main-thread"][ctx as usize]);
             match name {
                 Some(_) => {
                     let want = nat.clone().unwrap_or(Outcome::Other("no native probe".into()));
